@@ -112,6 +112,10 @@ theorem GoodM.viewOf {P : EP} {Q : Nat → Expr → Prop} : ∀ (v : View) (t : 
   | eb kid _ => intro t h; cases t <;> simp only [GoodM] at h
   | res c x => intro t h; cases t <;> simp only [GoodM] at h
 
+theorem GoodM.plain {P : EP} {Q : Nat → Expr → Prop} (v : View) (t : RState) (h : GoodM P Q v t) :
+    t.plain = true := by
+  cases v <;> cases t <;> first | rfl | simp only [GoodM] at h
+
 theorem GoodM.locals_nil {P : EP} {Q : Nat → Expr → Prop} : ∀ (v : View) (t : RState), GoodM P Q v t →
     t.locals = [] := by
   intro v
